@@ -57,24 +57,54 @@ def worker(version, args):
         # (the commit callback re-adds the NUL that parsing drops).
         if base:
             from harness import histories, mgrtrace, handback
-            for h in range(args.get("nmgr", 3)):
+            for h in range(-1, args.get("nmgr", 3)):
                 hseed = f"C02:mgr:{args['seed']}:{version}:{h}"
-                with cc.quiet():
-                    scn = AoE2DEScenario.from_file(base)
-                    H = histories.History(scn, random.Random(hseed), version)
-                    if h == 0:
-                        common.outcome(H.populate)      # every effect / condition type, attribute-complete
-                    else:
-                        for _ in range(35):
-                            common.outcome(H.step)
-                    f1 = os.path.join(tmp, f"m{h}.aoe2scenario")
-                    st_w, _ = common.outcome(scn.write_to_file, f1)
-                del scn
+                if h == -1:
+                    # the base file with other strings (written at section level, managers not involved): its content differs from
+                    # every scenario this process has loaded so far, so values remembered from an earlier scenario would show
+                    with cc.quiet():
+                        scn = AoE2DEScenario.from_file(base)
+                        k_ = 0
+                        for sec in scn.sections.values():
+                            for rname, r in sec.retriever_map.items():
+                                if r.datatype.type == "str" and isinstance(r.data, str) and not (sec.name == "DataHeader" and rname == "filename") and k_ < 12:
+                                    setattr(sec, rname, f"second {k_}"); k_ += 1
+                        f1 = os.path.join(tmp, "m_second.aoe2scenario")
+                        st_w, _ = common.outcome(scn.write_to_file, f1, skip_reconstruction=True)
+                    del scn
+                else:
+                    with cc.quiet():
+                        scn = AoE2DEScenario.from_file(base)
+                        H = histories.History(scn, random.Random(hseed), version)
+                        if h == 0:
+                            common.outcome(H.populate)      # every effect / condition type, attribute-complete
+                        else:
+                            for _ in range(35):
+                                common.outcome(H.step)
+                        f1 = os.path.join(tmp, f"m{h}.aoe2scenario")
+                        st_w, _ = common.outcome(scn.write_to_file, f1)
+                    del scn
                 if st_w != "ok":
                     continue
                 with cc.quiet():
                     st_l, lt = common.outcome(mgrtrace.load_traced, f1)
                     st_s, stx = common.outcome(mgrtrace.save_traced, lt[0], os.path.join(tmp, f"m{h}b.aoe2scenario")) if st_l == "ok" else ("skip", None)
+                if st_l == "ok" and drv:
+                    # ... and what the managers read IS the independent decode: the Lean `construct` (regenerated link tables
+                    # over the generated codec) applied to the bytes of this very file hands the constructors the same values
+                    raw_m = open(f1, "rb").read()
+                    o_m = drv.batch([f"table {version}", "hdr " + cc.hexd(raw_m)])
+                    if o_m[1].startswith("ok"):
+                        n_m = int(o_m[1].split("consumed=")[1])
+                        o_m = drv.batch([f"table {version}", "hdr " + cc.hexd(raw_m), "body " + cc.hexd(cc.inflate(raw_m[n_m:])), "construct"])
+                        R.case(key=f"construct:{h}", nontrivial=True, tags=("managers-read-decoded",))
+                        if o_m[3] != lt[1]:
+                            R.violation({"version": version, "kind": "manager-reads-other-than-decoded"},
+                                        "the values the managers' constructors receive from a loaded file differ from the independent "
+                                        "decode of the same bytes (file " + "not the first" + " of this process)",
+                                        {"version": version, "history_seed": hseed, "file_index_in_process": h, "diff": cc.first_diff(o_m[3], lt[1])})
+                        else:
+                            R.traces += 1
                 if st_l != "ok" or st_s != "ok":
                     continue                      # a file that does not re-load / re-save is C03's and C04's subject
                 try:
